@@ -677,12 +677,61 @@ fn leg_b(o: &Opts) -> i32 {
                         continue;
                     }
                     let mut budget = 300usize;
-                    let (msc, mdec, info) = minimise(&sc, &cases, &r.trace.decisions, &v.class, &reference, max_steps, &mut budget);
-                    let mr = execute(&msc, &cases, Kind::Replay { decisions: mdec.clone() }, 0, max_steps);
-                    let mv = judge(&msc, &mr, &reference, max_steps).ok().flatten();
-                    let (fsc, fdec, fv) = match mv {
-                        Some(mv) if mv.class == v.class => (msc, mdec, mv),
-                        _ => (sc.clone(), r.trace.decisions.clone(), v),
+                    // 0. program: the smallest corpus entry on which the same class still shows
+                    let mut m_cases = cases.clone();
+                    let mut m_sel = sel.clone();
+                    let mut m_sc = sc.clone();
+                    let mut m_dec = r.trace.decisions.clone();
+                    let mut program_substituted = false;
+                    'subst: for g in small.iter().take(5) {
+                        if all[*g].text.len() >= cases.iter().map(|c| c.text.len()).max().unwrap_or(0) || unjudgeable.contains(g) {
+                            continue;
+                        }
+                        let cand_cases: Vec<Case> = cases.iter().map(|_| all[*g].clone()).collect();
+                        let ok_args = (0..all[*g].args.len()).find(|a| matches!(golden.get(&(*g, *a, false)), Some(Outcome::Ok { .. }))).unwrap_or(0);
+                        let mut cand_sc = sc.clone();
+                        for sh in cand_sc.shared.iter_mut() {
+                            if let Shared::Compiled { args, .. } = sh {
+                                *args = ok_args;
+                            }
+                        }
+                        for t in cand_sc.tasks.iter_mut() {
+                            for op in t.iter_mut() {
+                                match op {
+                                    TaskOp::InstantiateCommit { args, .. } | TaskOp::CompileCommit { args, .. } => *args = ok_args,
+                                    _ => {}
+                                }
+                            }
+                        }
+                        let cand_ref = |_c: usize, a: usize, d: bool| golden.get(&(*g, a, d)).cloned();
+                        for (ki, k) in [1000u32, 500, 100].iter().enumerate() {
+                            for sd in 0..3u64 {
+                                if budget == 0 {
+                                    break 'subst;
+                                }
+                                budget -= 1;
+                                let rr = execute(&cand_sc, &cand_cases, Kind::RandomWalk { switch_permille: *k }, mix(sd ^ (ki as u64) << 8), max_steps);
+                                if let Ok(Some(vv)) = judge(&cand_sc, &rr, &cand_ref, max_steps) {
+                                    if vv.class == v.class {
+                                        m_cases = cand_cases;
+                                        m_sel = cases.iter().map(|_| *g).collect();
+                                        m_sc = cand_sc;
+                                        m_dec = rr.trace.decisions.clone();
+                                        program_substituted = true;
+                                        break 'subst;
+                                    }
+                                }
+                            }
+                        }
+                    }
+                    let m_reference = |c: usize, a: usize, d: bool| golden.get(&(m_sel[c], a, d)).cloned();
+                    let (msc, mdec, mut info) = minimise(&m_sc, &m_cases, &m_dec, &v.class, &m_reference, max_steps, &mut budget);
+                    info["program_substituted"] = serde_json::json!(program_substituted);
+                    let mr = execute(&msc, &m_cases, Kind::Replay { decisions: mdec.clone() }, 0, max_steps);
+                    let mv = judge(&msc, &mr, &m_reference, max_steps).ok().flatten();
+                    let (fsc, fdec, fv, cases) = match mv {
+                        Some(mv) if mv.class == v.class => (msc, mdec, mv, m_cases.clone()),
+                        _ => (sc.clone(), r.trace.decisions.clone(), v, cases.clone()),
                     };
                     let path = o.verif.join("replays").join(format!("C19-B-{}-{}.{}.json", o.seed, run, si));
                     let scenario = fsc.canonical();
